@@ -392,48 +392,69 @@ def run_check(prop, tier, seed, replay_file=None):
         for i, c in enumerate(cases):
             c["cid"] = "c%d" % i
         t1 = time.time()
-        events = replay_pool(prop.lower(), cases, os.path.join(work, "replay"), hashseeds=hashseeds)
-        t2 = time.time()
-        log("  [R] %d cases -> %d events replayed on the implementation in %.1fs" % (len(cases), len(events), t2 - t1))
-        by_trace = {}
-        for ev in events:
-            by_trace.setdefault(ev.get("trace", drv.TRACE), []).append(ev)
-        verdicts = {}
-        for tm, evs in by_trace.items():
-            v, n = judge(tm, evs, os.path.join(work, "judge-" + tm), consts=getattr(drv, "TRACE_CONSTS", ""))
-            verdicts.update(v)
-            stats["states"] += n
-            stats["transitions"] += max(0, n - 1)
-        t3 = time.time()
-        log("  [V] %d events judged by TLC in %.1fs" % (len(events), t3 - t2))
-        stats["traces"] = len(events)
-        # ---- classify
+        # replay and judge in batches: memory stays bounded however large the (thorough) family is
         findings = load_findings()
-        by_id = {ev["id"]: ev for ev in events}
         case_by = {c["cid"]: c for c in cases}
         new, known, unspec = [], {}, 0
         clause_counts = {}
-        for eid, items in sorted(verdicts.items()):
-            ev = by_id[eid]
-            for clause, kind in items:
-                if kind == "UNSPEC":
-                    unspec += 1
-                    continue
-                if kind == "SPECDEFECT":
-                    raise Machinery("the specification disagrees with its authoritative oracle on event %s: %s\n%s"
-                                    % (eid, clause, json.dumps({k: v for k, v in ev.items() if k != "meta"})[:600]))
-                clause_counts[clause] = clause_counts.get(clause, 0) + 1
-                feats = drv.features(ev, clause) if hasattr(drv, "features") else {}
-                owner = drv.owner(ev, clause) if hasattr(drv, "owner") else prop
-                fd = match_finding(findings, owner, ev.get("op"), clause, feats)
-                if fd is not None and owner == prop:
-                    known.setdefault(fd["id"], []).append(eid)
-                elif owner != prop:
-                    # failure of a clause owned by another property: reported there, counted here
-                    stats.setdefault("foreign", {}).setdefault(owner + ":" + clause, 0)
-                    stats["foreign"][owner + ":" + clause] += 1
-                else:
-                    new.append((eid, clause, feats))
+        n_events = 0
+        sample_events = []
+        keep = {}                      # id -> event, only for events with a failed clause
+        distinct = set()
+        t_replay = t_judge = 0.0
+        BATCH = 20000
+        for b0 in range(0, len(cases), BATCH):
+            tb = time.time()
+            events = replay_pool(prop.lower(), cases[b0:b0 + BATCH], os.path.join(work, "replay"), hashseeds=hashseeds)
+            t_replay += time.time() - tb
+            tb = time.time()
+            by_trace = {}
+            for ev in events:
+                by_trace.setdefault(ev.get("trace", drv.TRACE), []).append(ev)
+            verdicts = {}
+            for tm, evs in by_trace.items():
+                v, n = judge(tm, evs, os.path.join(work, "judge-" + tm), consts=getattr(drv, "TRACE_CONSTS", ""))
+                verdicts.update(v)
+                stats["states"] += n
+                stats["transitions"] += max(0, n - 1)
+            t_judge += time.time() - tb
+            n_events += len(events)
+            by_id = {ev["id"]: ev for ev in events}
+            if events and len(sample_events) < 2:
+                sample_events.append(events[len(events) // 2])
+            nontrivial = getattr(drv, "nontrivial", None)
+            for ev in events:
+                if nontrivial is None or nontrivial(ev):
+                    distinct.add(digest({k: v for k, v in ev.items() if k not in ("id", "cid", "hashseed", "meta")}))
+            for eid, items in sorted(verdicts.items()):
+                ev = by_id[eid]
+                for clause, kind in items:
+                    if kind == "UNSPEC":
+                        unspec += 1
+                        continue
+                    if kind == "SPECDEFECT":
+                        raise Machinery("the specification disagrees with its authoritative oracle on event %s: %s\n%s"
+                                        % (eid, clause, json.dumps({k: v for k, v in ev.items() if k != "meta"})[:600]))
+                    clause_counts[clause] = clause_counts.get(clause, 0) + 1
+                    feats = drv.features(ev, clause) if hasattr(drv, "features") else {}
+                    owner = drv.owner(ev, clause) if hasattr(drv, "owner") else prop
+                    fd = match_finding(findings, owner, ev.get("op"), clause, feats)
+                    if fd is not None and owner == prop:
+                        known.setdefault(fd["id"], []).append(eid)
+                    elif owner != prop:
+                        stats.setdefault("foreign", {}).setdefault(owner + ":" + clause, 0)
+                        stats["foreign"][owner + ":" + clause] += 1
+                    else:
+                        new.append((eid, clause, feats))
+                        keep[eid] = ev
+            del events, by_id, verdicts, by_trace
+        by_id = keep
+        t2 = t1 + t_replay
+        t3 = t2 + t_judge
+        log("  [R] %d cases -> %d events replayed on the implementation in %.1fs" % (len(cases), n_events, t_replay))
+        log("  [V] %d events judged by TLC in %.1fs" % (n_events, t_judge))
+        stats["traces"] = n_events
+        events = sample_events
         os.makedirs(REPLAYS, exist_ok=True)
         if not replay_file:
             for f in os.listdir(REPLAYS):       # replays of earlier runs of this property are stale
@@ -465,7 +486,11 @@ def run_check(prop, tier, seed, replay_file=None):
             if events:
                 samples.append(dict(event={k: v for k, v in events[len(events) // 2].items()}))
             stats["samples"] = samples
-            cov = dict(cases_replayed=len(cases), events_judged=len(events), unspec_verdicts=unspec,
+            cov = dict(cases_replayed=len(cases), events_judged=n_events, unspec_verdicts=unspec,
+                       evaluations=n_events, distinct_nontrivial=len(distinct),
+                       rule="one evaluation = one recorded public call judged by the trace specification; distinct = distinct "
+                            "(call, projected operands, projected result) triples" +
+                            ("; non-trivial = " + drv.NONTRIVIAL_RULE if hasattr(drv, "NONTRIVIAL_RULE") else ""),
                        failed_clauses=clause_counts, known_finding_events={k: len(v) for k, v in known.items()},
                        new_violation_events=nviol, hashseeds=list(hashseeds), exhaustive=drv.exhaustive(tier)
                        if hasattr(drv, "exhaustive") else False,
@@ -473,11 +498,9 @@ def run_check(prop, tier, seed, replay_file=None):
                        foreign_clause_failures=stats.get("foreign", {}),
                        phase_wall_s=dict(model_and_generate=round(t1 - t0, 1), replay=round(t2 - t1, 1),
                                          judge=round(t3 - t2, 1)))
-            if hasattr(drv, "coverage_extra"):
-                cov.update(drv.coverage_extra(cases, events, verdicts))
             write_evidence(prop, tier, seed, stats, cov, nviol, wall, drv.ASSUMPTIONS)
         log("[%s] done in %.1fs: %d cases, %d events, %d new violations, %d known-finding classes, %d unspec" %
-            (prop, wall, len(cases), len(events), nviol, len(known), unspec))
+            (prop, wall, len(cases), n_events, nviol, len(known), unspec))
         return 1 if nviol else 0
     finally:
         shutil.rmtree(work, ignore_errors=True)
